@@ -135,11 +135,30 @@ func (root *Root) assureType(sample interface{}, obj *Object) error {
 	obj.mu.Lock()
 	defer obj.mu.Unlock()
 	if obj.meta != nil && obj.meta != meta {
+		if sameGoType(obj.meta, meta) {
+			// The same struct handed out by value in one place and by
+			// pointer in another, the members of a []T and a *T.
+			return nil
+		}
 		return fmt.Errorf("%w: %s is already registered as a %s", ErrDuplicate, obj.N, obj.meta.String())
 	}
 	obj.meta = meta
 
 	return nil
+}
+
+// sameGoType returns true if a and b are the same type once pointers are
+// taken off. A GraphQL type is bound to a Go type, whether values of that Go
+// type reach the package as a T or as a *T does not make them a different
+// type.
+func sameGoType(a, b reflect.Type) bool {
+	for a != nil && a.Kind() == reflect.Ptr {
+		a = a.Elem()
+	}
+	for b != nil && b.Kind() == reflect.Ptr {
+		b = b.Elem()
+	}
+	return a == b
 }
 
 func (root *Root) regInput(sample interface{}, input *Input) error {
@@ -157,7 +176,7 @@ func (root *Root) getReflectType(meta reflect.Type) (obj Type) {
 		o, _ := t.(*Object)
 		if o != nil {
 			o.mu.Lock()
-			if o.meta == meta {
+			if o.meta != nil && sameGoType(o.meta, meta) {
 				obj = o
 				o.mu.Unlock()
 				break
@@ -215,8 +234,16 @@ func (root *Root) regField(obj *Object, fd *FieldDef, goField string, args ...st
 			return
 		}
 	}
-	for i := objMeta.NumMethod() - 1; 0 <= i; i-- {
-		m := objMeta.Method(i)
+	// Methods are looked up on the pointer type which has the methods of
+	// the struct as well. The type might have been bound when one of its
+	// values was seen and be handed out as a pointer somewhere else, the
+	// receiver is converted when the method is called.
+	mmeta := objMeta
+	if mmeta.Kind() == reflect.Struct {
+		mmeta = reflect.PtrTo(mmeta)
+	}
+	for i := mmeta.NumMethod() - 1; 0 <= i; i-- {
+		m := mmeta.Method(i)
 		if strings.EqualFold(m.Name, goField) {
 			fd.method = &m.Func
 			break
